@@ -1979,11 +1979,75 @@ func encLen(d []byte) int {
 // DecompressBytes(CompressBytes(d), len d) == d: exhaustive for short vectors, and for the row lengths in use a
 // sweep over the number and placement of non-zero bytes that crosses the point where the encoding becomes as
 // long as the data (CompressBytes then stores the data itself, DecompressBytes recognises that by the length)
-func bitutilLevel(c *vh.Ctx) {
+func decompObs(data []byte, target int) string {
+	obs := ""
+	if p, pv := vh.CatchPanic(func() {
+		dec, err := bitutil.DecompressBytes(data, target)
+		switch {
+		case err == nil:
+			obs = "ok " + vh.Hex(dec)
+		case strings.Contains(err.Error(), "missing bytes"):
+			obs = "err-missing"
+		case strings.Contains(err.Error(), "extra bytes"):
+			obs = "err-unreferenced"
+		case strings.Contains(err.Error(), "size exceeded"):
+			obs = "err-exceeded"
+		case strings.Contains(err.Error(), "zero byte"):
+			obs = "err-zero"
+		default:
+			obs = "err-other:" + err.Error()
+		}
+	}); p {
+		obs = fmt.Sprintf("panic %v", pv)
+	}
+	return obs
+}
+
+func bitutilLevel(c *vh.Ctx, m *vh.Model) {
 	r := c.Rng.Fork()
+	var lines, observed, names []string
+	ask := func(name, line, obs string) {
+		names, lines, observed = append(names, name), append(lines, line), append(observed, obs)
+	}
+	nvec := 0
 	check := func(d []byte, cls string) {
 		out := bitutil.CompressBytes(d)
 		dec, err := bitutil.DecompressBytes(out, len(d))
+		nvec++
+		if len(d) != 2 || nvec%8 == 0 { // the model sees every vector except 7 of 8 of the two-byte ones
+			ask("bitutil.CompressBytes~compress", "compress "+vh.Hex(d), vh.Hex(out))
+			ask("bitutil.DecompressBytes~decompress", fmt.Sprintf("decompress %s %d", vh.Hex(out), len(d)), decompObs(out, len(d)))
+		}
+		if nvec%5 == 0 && len(out) > 0 { // corrupt inputs: must be an error or a value, never a panic, and as the model says
+			var bad []byte
+			target := len(d)
+			switch (nvec / 5) % 6 {
+			case 0:
+				bad = out[:len(out)-1]
+			case 1:
+				bad = append(append([]byte(nil), out...), byte(r.Intn(3)))
+			case 2:
+				bad = append([]byte(nil), out...)
+				bad[r.Intn(len(bad))] = 0
+			case 3:
+				bad = append([]byte(nil), out...)
+				bad[0] |= byte(1 << uint(r.Intn(8)))
+			case 4:
+				bad, target = out, []int{0, 1, len(d) + 1, len(d) - 1, 8, 64}[r.Intn(6)]
+				if target < 0 {
+					target = 0
+				}
+			default:
+				bad = r.Bytes(1 + r.Intn(6))
+				target = []int{1, 2, 8, 9, 64, 65, 512}[r.Intn(7)]
+			}
+			obs := decompObs(bad, target)
+			c.Count("bitutil/corrupt-input/" + strings.SplitN(obs, " ", 2)[0])
+			ask("bitutil.DecompressBytes(corrupt)~decompress", fmt.Sprintf("decompress %s %d", vh.Hex(bad), target), obs)
+			if strings.HasPrefix(obs, "panic") {
+				violate(c, "bitutil-decompress-panic/"+vh.Hex(bad), "DecompressBytes panics on malformed input", map[string]string{"data": vh.Hex(bad), "target": fmt.Sprint(target), "panic": obs})
+			}
+		}
 		rel := "shorter"
 		if el := encLen(d); el == len(d) {
 			rel = "equal"
@@ -2040,6 +2104,9 @@ func bitutilLevel(c *vh.Ctx) {
 				check(d, fmt.Sprintf("len%d-density", L))
 			}
 		}
+	}
+	for i, a := range m.AskAll(lines) {
+		c.Correspond(names[i], lines[i], observed[i], a)
 	}
 }
 
@@ -2422,7 +2489,7 @@ func main() {
 	bloomLevel(c, m)
 	stage("bloom-level")
 	generatorLevel(c, m)
-	bitutilLevel(c)
+	bitutilLevel(c, m)
 	stage("generator-level + bitutil")
 	{
 		rr := c.Rng.Fork()
